@@ -22,7 +22,7 @@ package accountmanager
 //@ modifies procstate
 //@ ensures [answer] (req == nil ==> result0 == nil && result1 != nil) && (req != nil ==> result0 != nil && result1 == nil)
 //@ ensures [failed] req != nil && result0.State != pb.ResponseState_SUCCEEDED ==> len(result0.PublicKey) == 0 && len(result0.Participants) == 0
-//@ loop #1
+//@ loop #1 over range participants
 //@ invariant [range] 0 <= _n && _n <= len(participants) && res != nil && fresh(res) && len(res.Participants) == len(participants) && fresh(res.Participants)
 
 // ---- construction: the object handed out has every collaborator the methods rely on ----
@@ -35,7 +35,7 @@ package accountmanager
 //@ requires [options] forall i int :: 0 <= i && i < len(params) ==> params[i] != nil
 //@ ensures [err] result1 != nil ==> result0 == nil
 //@ ensures [ok] result1 == nil ==> result0 != nil && result0.accountManager != nil && result0.process != nil
-//@ loop #1
+//@ loop #1 over range params
 //@ invariant [range] 0 <= _n && _n <= len(params)
 
 //@ func New
